@@ -10,6 +10,9 @@ from props.c04 import TRUST
 def run(ses):
     for unit in ("image10s", "image11s"):
         records.check_unit(ses, unit, ["table", "frame"])
+    from props import analyses
+
+    analyses.bounded_tables(ses, ('image10s', 'image11s'), 12 if ses.tier == "quick" else 300)
     ses.trust(*TRUST)
     ses.assume("well-formed image file: n >= 1 records of the declared length R >= 13 at 720 + k*R, record type 10 / 11, "
                "|file| = 720 + n*R (header positions 181-186 / 187-192)",
